@@ -87,7 +87,7 @@ def answers_of(reqs, env=None):
 def run(tier, seed):
     ck = Check("C10", "model_checking", tier, seed)
     n = 40 if tier == "quick" else 200
-    progs, srcs = refrun.gen_programs(seed + 5, n, 3, err_rate=3.0)
+    progs, srcs = refrun.gen_programs(seed + 5, n, 3, err_rate=3.0, features={"ext": True, "ext2": "half"})
     d = scratch_dir("c10")
     try:
         path = os.path.join(d, "p.ndjson")
@@ -104,7 +104,7 @@ def run(tier, seed):
                 continue
             cases.append((depth, blk, pend, trailing, resumed, topnest, 0))
             # other requests served between the failure and :abort: a successful evaluation, a failing one
-            if resumed == 0 and (tier != "quick" or (trailing != 1 and pend != 1)):
+            if resumed == 0 and (tier != "quick" or (trailing != 1 and pend != 1 and (depth == 0 or topnest == 0))):
                 cases.append((depth, blk, pend, trailing, resumed, topnest, 1))
                 cases.append((depth, blk, pend, trailing, resumed, topnest, 2))
 
